@@ -165,7 +165,7 @@ const EMPTY_CFGS = { NO_METHODS: cfg({ plus: false, tpl: false, methods: [] }), 
 module.exports = {
   id: 'C12',
   level: 'exploration',
-  rule: 'status/content consistency monitor on every response: notmodified => empty native content/code/map and the real main.js wrapper returns the input byte for byte; modified => >= 1 hook call site (census), prologue present, exactly one decodable trailer; status vs policy prediction in the two unambiguous directions. Workload: 24 hand-picked unmodified-looking inputs (literal sums, excluded positions, normalised arrows/optional chains, BOM/CRLF/hashbang/non-ASCII/empty/large) x all configurations, corpus/catalogue/random programs under instrumenting and non-instrumenting configurations (corpus slice also with CRLF line endings), and modified / unmodified programs carrying a sourceMappingURL reference of every kind and reader outcome (usable, broken, unreadable, oversized, hostile text) x chaining on/off x comments on/off. distinct_nontrivial = distinct (input, config) pairs decided. Workload additions: corpus files with enabled operations spliced onto randomly chosen expression nodes (25 wrappers x every expression slot; only texts V8 still compiles), the syntax zoo with LF/CRLF/CR line endings, a CRLF slice of the corpus.',
+  rule: 'status/content consistency monitor on every response: notmodified => empty native content/code/map and the real main.js wrapper returns the input byte for byte; modified => >= 1 hook call site (census), prologue present, exactly one decodable trailer; status vs policy prediction in the two unambiguous directions. Workload: 24 hand-picked unmodified-looking inputs (literal sums, excluded positions, normalised arrows/optional chains, BOM/CRLF/hashbang/non-ASCII/empty/large) x all configurations, corpus/catalogue/random programs under instrumenting and non-instrumenting configurations (corpus slice also with CRLF line endings), and modified / unmodified programs carrying a sourceMappingURL reference of every kind and reader outcome (usable, broken, unreadable, oversized, hostile text) x chaining on/off x comments on/off. distinct_nontrivial = distinct (input, config) pairs decided. Workload additions: corpus files with enabled operations spliced onto randomly chosen expression nodes (25 wrappers x every expression slot; only texts V8 still compiles), the syntax zoo with LF/CRLF/CR line endings, a CRLF slice of the corpus. A fifth of the generated/corpus calls is made with hostile file arguments (no base name, no directory, `..`, blanks, backslashes, non-ASCII, 5000 characters, query/hash, trailing slash): the contract does not depend on the name.',
   assumptions: ['the package wrapper is exercised through the real /repo/main.js with the native module replaced by a shim returning the harness response'],
   plan (ctx) {
     const shards = [{ kind: 'noop' }]
@@ -202,6 +202,9 @@ module.exports = {
       }
     } else {
       js = structJobs(spec, ctx)
+      // the status/content contract holds for ANY file argument: a share of the calls is made with file names without a base
+      // name, without a directory, with odd characters, very long... (the names C13 uses)
+      { const frng = new Rng(ctx.seed, 'c12files', spec.stream || 0); js = js.map((j, i) => i % 5 === 2 ? Object.assign({}, j, { file: frng.pick(G.FILE_NAMES), meta: Object.assign({}, j.meta, { hostileFileName: true }) }) : j) }
       if (spec.emptyCfg) js = js.map((j, i) => { const cn = i % 2 ? 'NO_METHODS' : 'OMITTED_METHODS'; return Object.assign({}, j, { config: EMPTY_CFGS[cn], cfgKey: cn, cfgName: cn, meta: Object.assign({}, j.meta, { emptyCfg: true }) }) })
     }
     const { responses, prefixes } = rewriteJobs(js)
